@@ -454,6 +454,30 @@ func megaAlignCases(opens []int, quick bool, emit func(AlignCase) bool) bool {
 				}
 			}
 		}
+		// a good part, 200 N (which score badly against everything), an unrelated tail - against a
+		// near-copy of the good part: the best local alignment is followed by all-zero rows
+		{
+			n5 := MatSpec{Letters: gen.B("ACGTN"), DelGap: []int{-2, -2, -2, -2, -2}, InsGap: []int{-2, -2, -2, -2, -2}, Open: open}
+			for i := 0; i < 5; i++ {
+				row := []int{-3, -3, -3, -3, -4}
+				if i < 4 {
+					row[i] = 2
+				} else {
+					row = []int{-4, -4, -4, -4, -4}
+				}
+				n5.Pair = append(n5.Pair, row)
+			}
+			good := realDNA(150, 31, false, false)
+			tail := realDNA(150, 32, false, false)
+			x := append(append(bytes.Clone(good), bytes.Repeat([]byte("N"), 200)...), tail...)
+			y := append(bytes.Clone(good[10:140]), 'A', 'C')
+			y[40], y[90] = 'N', 'N'
+			for _, pr := range [][2][]byte{{x, y}, {y, x}, {append(bytes.Clone(tail), x...), y}} {
+				if !emit(AlignCase{A: pr[0], B: pr[1], M: n5, Local: true, Light: true}) {
+					return false
+				}
+			}
+		}
 		// a shared core with w extra letters at the start of one sequence and at the end of the
 		// other: the only optimal alignment runs w diagonals off the corner diagonal
 		if open == 0 {
